@@ -144,12 +144,30 @@ Proof.
     rewrite Forall_forall in Hr. apply Hr. eapply nth_error_In; eauto.
 Qed.
 
+Lemma write_rows_from_shape W fb : forall x k rows fb',
+  Forall (fun r => zlen r = W) fb -> write_rows_from fb x k rows = Some fb' ->
+  length fb' = length fb /\ Forall (fun r => zlen r = W) fb'.
+Proof.
+  induction fb as [|row fb1 IH]; intros x k rows fb' Hfb E.
+  - destruct rows; cbn [write_rows_from] in E; [inversion E; subst; auto|discriminate].
+  - destruct rows as [|r rs]; cbn [write_rows_from] in E; [inversion E; subst; auto|].
+    pose proof (Forall_inv Hfb) as Hrow. pose proof (Forall_inv_tail Hfb) as Hfb1. cbn beta in Hrow.
+    destruct k as [|k'].
+    + destruct (row_write row x r) as [row'|] eqn:Er; [|discriminate].
+      destruct (write_rows_from fb1 x 0 rs) as [t|] eqn:Et; [|discriminate]. injection E as <-.
+      destruct (IH _ _ _ _ Hfb1 Et) as [L F]. split; [cbn [length]; lia|].
+      constructor; [|exact F]. apply row_write_len in Er. lia.
+    + destruct (write_rows_from fb1 x k' (r :: rs)) as [t|] eqn:Et; [|discriminate]. injection E as <-.
+      destruct (IH _ _ _ _ Hfb1 Et) as [L F]. split; [cbn [length]; lia|]. constructor; assumption.
+Qed.
+
 Lemma fb_write_rows_wf W H rows : forall fb x y fb', fb_wf W H fb -> fb_write_rows fb x y rows = Some fb' -> fb_wf W H fb'.
 Proof.
-  induction rows as [|r rows IH]; intros fb x y fb' Hfb; cbn [fb_write_rows].
-  - intros E; inversion E; subst; exact Hfb.
-  - destruct (fb_write fb x y r) as [fb1|] eqn:E1; [|discriminate].
-    apply IH. eapply fb_write_wf; eauto.
+  intros fb x y fb' [Hl Hr] E. unfold fb_write_rows in E.
+  destruct rows as [|r rs]; [injection E as <-; split; assumption|].
+  destruct (y <? 0); [discriminate|].
+  destruct (write_rows_from_shape W fb x (Z.to_nat y) (r :: rs) fb' Hr E) as [L F].
+  split; [unfold zlen in *; lia|exact F].
 Qed.
 
 Lemma sound_write_rows c x y rows : sound (write_rowsM c x y rows).
